@@ -8,7 +8,9 @@ Stateful line protocol (one answer line per request line):
 
     bus dev <a> <status> <dtr0> <dtr1> <dtr2> inst <type> <en> <scheme> <filter> <fwidth> <res> <v0> <vstep> [inst …] [dev …]
                                    -> ok          (sets the specification bus; value(t) = (v0 + vstep*t) mod 2^res)
-    fault <k> none|err|byte <n>    -> ok          (the k-th command of the next sequence gets this answer instead)
+    fault <k> none|err|byte <n>    -> ok          (the k-th command of the next sequence gets this answer instead;
+                                                  it counts as a fault only if the sequence reads that answer
+                                                  and it differs from the specification bus's own answer)
     seq schemes <a> <i> <scheme> | seq setfilter <a> <i> <width|-> <value> | seq queryfilter <a> <i> <w>
       | seq inputvalue <a> <i> <res|-> | seq autodiscover <a,a,…|->
                                    -> ok          (starts the model of that sequence)
@@ -22,6 +24,8 @@ Stateful line protocol (one answer line per request line):
 value) | `m:a.i.t,…` (the mapping after discovery, sorted; `m:` empty).
 `post` evaluates the property's post-condition on the *specification bus* as
 driven by the real code's commands and on the value the real code returned.
+It depends on the injected fault (which command, which answer): silence or a
+framing error must lead to a skip / `None` / `DALISequenceError`, never to a value.
 -/
 namespace DaliVerif.DevSeqDrv
 open DaliVerif DaliVerif.DevMem Proto
@@ -58,6 +62,8 @@ structure St where
   idx : Nat := 0
   fault : Option (Nat × Resp) := none
   faulted : Bool := false
+  /-- the command whose answer was replaced, and the answer it got instead -/
+  faultCmd : Option (Cmd × Resp) := none
 
 def fmtResp : Resp → String
   | .none => "none" | .err => "err" | .byte b => s!"byte {b}"
@@ -139,19 +145,52 @@ def fmtOutcome : PyRes Val → String
 def allKeys : List (Nat × Nat) :=
   (List.range 64).flatMap fun a => (List.range 32).map fun i => (a, i)
 
+/-- the commands whose answer these sequences look at (a "fault" on any other
+command changes nothing: every driver resumes the generator with `None`) -/
+def readsAnswer : Cmd → Bool
+  | .queryEventScheme .. | .queryEventFilterL .. | .queryEventFilterM .. | .queryEventFilterH ..
+  | .queryResolution .. | .queryInputValue .. | .queryInputValueLatch .. | .queryInstanceEnabled ..
+  | .queryInstanceType .. | .queryDeviceStatus .. | .queryNumberOfInstances .. => true
+  | _ => false
+
+/-- the substituted answer was silence or a framing error (not another byte) -/
+def silentFault : Option (Cmd × Resp) → Bool
+  | some (_, .none) | some (_, .err) => true
+  | _ => false
+
+/-- discovery: the mapping keys a missing / garbled answer to command `c` must keep
+out of the mapping (status / instance count: the whole device; enabled / type:
+that instance) -/
+def skippedBy (c : Cmd) (k : Nat × Nat) : Bool :=
+  match c with
+  | .queryDeviceStatus a | .queryNumberOfInstances a => k.1 == a
+  | .queryInstanceEnabled a i | .queryInstanceType a i => k == (a, i)
+  | _ => false
+
 /-- The property's post-condition, evaluated on the specification bus before
 (`b0`) and after (`b`) the run and on the outcome the *real code* reported.
-`faulted`: an injected fault was actually delivered. -/
-def post (sq : Seq) (b0 b : Bus) (faulted : Bool) (out : PyRes Val) : Option String :=
+`fault`: the command whose answer was replaced by an injected fault (only
+counted if the sequence reads that answer and it differs from the real one),
+with the substituted answer. -/
+def post (sq : Seq) (b0 b : Bus) (fault : Option (Cmd × Resp)) (out : PyRes Val) : Option String :=
+  let faulted := fault.isSome
+  let silent := silentFault fault
   match sq with
   | .schemes a i s =>
     if !addrOK a i || s < 0 || s > 4 then
       if out == .error .ValueError then none else some "expected ValueError"
-    else if faulted then
-      match out with
-      | .ok (.resp _) => none
-      | _ => some "expected a response object"
-    else match b0.inst? a i, b.inst? a i with
+    else match fault with
+      | some (_, fr) =>
+        -- only QUERY EVENT SCHEME is read: the scheme is stored all the same and the
+        -- response object is handed back as received
+        let stored := match b0.inst? a i, b.inst? a i with
+          | some _, some x' => x'.scheme == s.toNat
+          | _, _ => true
+        if !stored then some s!"scheme not stored (fault on the read-back only)"
+        else if out == .ok (.resp fr) then none
+        else some s!"expected the response object as received ({fmtResp fr})"
+      | none =>
+      match b0.inst? a i, b.inst? a i with
       | some _, some x' =>
         if x'.scheme == s.toNat && out == .ok (.resp (.byte s.toNat)) then none
         else some s!"scheme stored {x'.scheme}, want {s}"
@@ -161,9 +200,14 @@ def post (sq : Seq) (b0 b : Bus) (faulted : Bool) (out : PyRes Val) : Option Str
     else if v < 0 || v ≥ 16777216 then
       (if out == .error .OverflowError then none else some "expected OverflowError")
     else if faulted then
+      -- the fault is on the read-back; the filter itself has been stored
+      let storedOK := match w, b0.inst? a i, b.inst? a i with
+        | some w, some x, some x' => !(x.filterWidth == w && v.toNat < 2 ^ w) || x'.filter == v.toNat
+        | _, _, _ => true
+      if !storedOK then some "filter not stored (fault on the read-back only)" else
       match out with
       | .ok .none => none
-      | .ok (.nat _) => none
+      | .ok (.nat _) => if silent then some "a missing or garbled read-back must give None" else none
       | _ => some "fault must give None or a value"
     else match w, b0.inst? a i, b.inst? a i with
       | some w, some x, some x' =>
@@ -179,7 +223,7 @@ def post (sq : Seq) (b0 b : Bus) (faulted : Bool) (out : PyRes Val) : Option Str
     else if faulted then
       match out with
       | .ok .none => none
-      | .ok (.nat _) => none
+      | .ok (.nat _) => if silent then some "a missing or garbled answer must give None" else none
       | _ => some "fault must give None or a value"
     else match b0.inst? a i with
       | some x =>
@@ -192,7 +236,8 @@ def post (sq : Seq) (b0 b : Bus) (faulted : Bool) (out : PyRes Val) : Option Str
     else if faulted then
       match out with
       | .error .DALISequenceError => none
-      | .ok (.nat _) => none     -- a fault that replaced a byte by another byte
+      | .ok (.nat _) =>           -- only a fault that replaced a byte by another byte may give a value
+        if silent then some "a missing or garbled answer must give DALISequenceError" else none
       | _ => some "fault must give DALISequenceError"
     else match b0.inst? a i with
       | some x =>
@@ -207,13 +252,27 @@ def post (sq : Seq) (b0 b : Bus) (faulted : Bool) (out : PyRes Val) : Option Str
     else match out with
       | .ok (.log m) =>
         if b.quiescent then some "quiescent mode left on" else
-        if faulted then none else
-        -- the reported mapping (started empty) must be exactly the expected one
-        let bad := allKeys.filter fun k =>
-          lookupLog m (fun _ => Option.none) k != expectedType b0.devs addrs k.1 k.2
-        match bad with
-        | [] => none
-        | k :: _ => some s!"mapping differs at ({k.1},{k.2})"
+        match fault with
+        | some (_, .byte _) => none      -- another byte: the scan cannot know better
+        | _ =>
+        -- The reported mapping (started empty) must be exactly the expected one; a key
+        -- whose status / count / enabled / type query went unanswered or was garbled
+        -- must be skipped (unless its address is scanned a second time, cleanly).
+        let want (k : Nat × Nat) : Option Nat :=
+          match fault with
+          | some (c, _) =>
+            if skippedBy c k && addrs.count k.1 ≤ 1 then Option.none
+            else expectedType b0.devs addrs k.1 k.2
+          | Option.none => expectedType b0.devs addrs k.1 k.2
+        let bad := allKeys.filter fun k => lookupLog m (fun _ => Option.none) k != want k
+        match bad, fault with
+        | [], _ => none
+        | k :: _, Option.none => some s!"mapping differs at ({k.1},{k.2})"
+        | k :: _, some (c, fr) =>
+          some (s!"mapping differs at ({k.1},{k.2}): recorded " ++
+            (match lookupLog m (fun _ => Option.none) k with | some t => s!"type {t}" | Option.none => "nothing") ++
+            ", want " ++ (match want k with | some t => s!"type {t}" | Option.none => "nothing (skip)") ++
+            s!"; the answer to {c.name} {c.frame.2} was {fmtResp fr}")
       | _ => some "expected a normal return"
 
 def handleStep (st : St) : List String → St × String
@@ -221,7 +280,7 @@ def handleStep (st : St) : List String → St × String
     match parseDevs rest [] with
     | some devs =>
       let b : Bus := ⟨0, fun a => (devs.find? (·.1 == a)).map (·.2), false⟩
-      ({ st with bus := b, bus0 := b, fault := none, faulted := false }, "ok")
+      ({ st with bus := b, bus0 := b, fault := none, faulted := false, faultCmd := none }, "ok")
     | none => (st, "bad-op")
   | "fault" :: k :: rest =>
     match parseNat? k, parseResp rest with
@@ -230,7 +289,7 @@ def handleStep (st : St) : List String → St × String
   | "seq" :: rest =>
     match parseSeq rest with
     | some sq => ({ st with seq := some sq, model := some sq.prog, diverged := none, idx := 0,
-                            bus0 := st.bus, faulted := false }, "ok")
+                            bus0 := st.bus, faulted := false, faultCmd := none }, "ok")
     | none => (st, "bad-op")
   | ["cmd", nm, bits, fr] =>
     match parseNat? bits, parseNat? fr with
@@ -239,9 +298,11 @@ def handleStep (st : St) : List String → St × String
       | none => (st, "bad-op")
       | some c =>
         let (r0, bus') := st.bus.step c
-        let (r, faulted) := match st.fault with
-          | some (k, fr) => if k == st.idx then (fr, true) else (r0, st.faulted)
-          | none => (r0, st.faulted)
+        let (r, hit) := match st.fault with
+          | some (k, fr) => if k == st.idx then (fr, readsAnswer c && fr != r0) else (r0, false)
+          | none => (r0, false)
+        let faulted := st.faulted || hit
+        let faultCmd := if hit then some (c, r) else st.faultCmd
         let (model', div) := match st.diverged, st.model with
           | some d, m => (m, some d)
           | none, some (.send c' k) =>
@@ -249,7 +310,8 @@ def handleStep (st : St) : List String → St × String
           | none, some (.done _) => (none, some s!"0@{st.idx}:model-finished")
           | none, some (.fail e) => (none, some s!"0@{st.idx}:model-raised-{e.name}")
           | none, none => (none, some s!"0@{st.idx}:no-model")
-        ({ st with bus := bus', idx := st.idx + 1, model := model', diverged := div, faulted := faulted },
+        ({ st with bus := bus', idx := st.idx + 1, model := model', diverged := div, faulted := faulted,
+                   faultCmd := faultCmd },
           fmtResp r)
     | _, _ => (st, "bad-op")
   | "end" :: rest =>
@@ -268,7 +330,7 @@ def handleStep (st : St) : List String → St × String
         | none, some (.fail e) => ("1", fmtOutcome (.error e))
         | none, some (.send c _) => (s!"0@{st.idx}:{c.render}", "-")
         | none, none => ("0@end:no-model", "-")
-      let p := match post sq st.bus0 st.bus st.faulted out with
+      let p := match post sq st.bus0 st.bus st.faultCmd out with
         | none => "ok" | some m => "FAIL:" ++ m.replace " " "~"
       ({ st with seq := none, model := none, fault := none },
         s!"ok sync={sync} model={modelOut.replace " " "~"} post={p}")
